@@ -1156,12 +1156,16 @@ func (e *engine) inlineable(fn *ssa.Function, depth int) bool {
 	if fn == nil || fn.Blocks == nil || depth >= e.o.MaxDepth {
 		return false
 	}
-	if fn.Pkg == nil && fn.Parent() == nil {
-		return false
-	}
+	// an instantiation of a generic function belongs to the package of its origin
 	root := fn
 	for root.Parent() != nil {
 		root = root.Parent()
+	}
+	if o := root.Origin(); o != nil {
+		root = o
+	}
+	if root.Pkg == nil {
+		return false
 	}
 	if root.Pkg == nil || !strings.HasPrefix(root.Pkg.Pkg.Path(), modPath) {
 		return false
@@ -1490,13 +1494,112 @@ func (e *engine) afterOpaque(fr *frame, ev Event, args []*Term, cont func(*Term)
 	e.emit(ev)
 	if !ev.Pure {
 		// out-parameters: pointers to local cells handed to an opaque callee
+		var callee *ssa.Function
+		if ci, ok := ev.Instr.(ssa.CallInstruction); ok && ci != nil {
+			callee = ci.Common().StaticCallee()
+		}
 		for i, a := range args {
 			if a.Op == "addr" && a.Args[0].Op == "alloc" {
+				// a module callee whose body is known and which provably never writes through this
+				// pointer parameter (e.g. a pointer-receiver getter) leaves the cell alone
+				if callee != nil && callee.Blocks != nil && i < len(callee.Params) && !mayWriteThrough(callee, i, 0, map[*ssa.Function]bool{}) {
+					continue
+				}
 				e.setMem(rootKey(a.Args[0]), &Term{Op: "opaque", Name: "out" + strconv.Itoa(i), Args: []*Term{ev.Call}, Typ: a.Args[0].Typ})
 			}
 		}
 	}
 	cont(ev.Call)
+}
+
+// mayWriteThrough: can fn write memory reachable from its idx-th (pointer) parameter?
+// Conservative: a store whose address is rooted at the parameter, or handing the parameter (or
+// an address derived from it) to any callee that is not itself shown harmless, counts as a write.
+func mayWriteThrough(fn *ssa.Function, idx, depth int, seen map[*ssa.Function]bool) bool {
+	if fn == nil || fn.Blocks == nil || idx >= len(fn.Params) || depth > 4 || seen[fn] {
+		return true
+	}
+	seen[fn] = true
+	defer delete(seen, fn)
+	derived := map[ssa.Value]bool{fn.Params[idx]: true}
+	for changed := true; changed; {
+		changed = false
+		for _, b := range fn.Blocks {
+			for _, in := range b.Instrs {
+				v, ok := in.(ssa.Value)
+				if !ok || derived[v] {
+					continue
+				}
+				switch x := in.(type) {
+				case *ssa.FieldAddr:
+					if derived[x.X] {
+						derived[v], changed = true, true
+					}
+				case *ssa.IndexAddr:
+					if derived[x.X] {
+						derived[v], changed = true, true
+					}
+				case *ssa.Phi:
+					for _, e := range x.Edges {
+						if derived[e] {
+							derived[v], changed = true, true
+						}
+					}
+				case *ssa.ChangeType:
+					if derived[x.X] {
+						derived[v], changed = true, true
+					}
+				case *ssa.MakeInterface:
+					if derived[x.X] {
+						derived[v], changed = true, true
+					}
+				}
+			}
+		}
+	}
+	for _, b := range fn.Blocks {
+		for _, in := range b.Instrs {
+			switch x := in.(type) {
+			case *ssa.Store:
+				if derived[x.Addr] {
+					return true
+				}
+				if derived[x.Val] {
+					return true // the pointer escapes into memory
+				}
+			case *ssa.MapUpdate:
+				if derived[x.Value] || derived[x.Key] {
+					return true
+				}
+			case *ssa.MakeClosure:
+				for _, bnd := range x.Bindings {
+					if derived[bnd] {
+						return true
+					}
+				}
+			case *ssa.Return:
+				for _, r := range x.Results {
+					if derived[r] {
+						return true
+					}
+				}
+			case ssa.CallInstruction:
+				for ai, a := range x.Common().Args {
+					if !derived[a] {
+						continue
+					}
+					cal := x.Common().StaticCallee()
+					if cal == nil || mayWriteThrough(cal, ai, depth+1, seen) {
+						return true
+					}
+				}
+				if x.Common().IsInvoke() && derived[x.Common().Value] {
+					return true
+				}
+			}
+		}
+	}
+	return false
 }
 
 func (e *engine) runCallbacks(fr *frame, site ssa.Instruction, callT *Term, args []*Term, k int, cont func()) {
